@@ -461,6 +461,22 @@ pub fn c18(cx: &mut Ctx) {
             bwrite(cx, n, m, n);
         }
     }
+    // a direct-write report beyond what is left is refused and changes nothing: the advertised size still holds
+    for (total, sent) in [(100usize, 0usize), (100, 40), (3000, 0), (10, 4)] {
+        cx.case("refused");
+        if !to_send_body(cx, "POST", "HTTP/1.1", Some(total as u64), false) { continue; }
+        if sent > 0 { bwrite(cx, 1, sent, sent); }
+        cx.op(&format!("direct {}", total - sent + 1));
+        cx.op("canproceed");
+        let left = total - sent;
+        for n in [1usize, left / 2, left - left / 2 - 1] {
+            if n == 0 { continue; }
+            let res = cx.op(&format!("maxin {}", n));
+            let m: usize = res.split(' ').nth(1).unwrap_or("0").parse().unwrap_or(0);
+            bwrite(cx, n, m, n);
+        }
+        cx.op("canproceed");
+    }
     // the size ladder over n, chunked and sized, on one flow each
     for sized in [false, true] {
         cx.case("ladder");
@@ -507,8 +523,11 @@ pub fn c19(cx: &mut Ctx) {
             let first = if cap == 7 { 1 } else { 0 };
             let mut off = 0;
             if first > 0 { let (_, u) = bwrite(cx, 0, first, cap); off += u; }
+            // a report beyond what is left is refused and changes nothing
+            if cap != 64 { cx.op(&format!("direct {}", total - off + 1)); cx.op("canproceed"); }
             if cx.op(&format!("direct {}", direct - first)) == "unit" { off += direct - first; }
             cx.op("canproceed");
+            if cap == 1 { cx.op(&format!("direct {}", total - off + 1)); cx.op("canproceed"); }
             let mut calls = 0;
             while off < total && calls <= 200 {
                 let (ok, used) = bwrite(cx, off, total - off, cap.max((total - direct) / 100));
